@@ -142,7 +142,7 @@ def run(case):
             args = tuple(p[0] for p in picks)
             exp_sel = sorted({p[1] for p in picks})
         else:
-            args = tuple(axes)
+            args = tuple(np.int64(a) for a in axes) if case["wseed"] % 4 == 0 else tuple(axes)      # numpy integers too
             want_axes = {a % nd for a in axes}
             exp_sel = [i for i in range(ll.world_n_dim)
                        if any(corr[i, k] and cube_axis_of_pix(k) in want_axes for k in range(ll.pixel_n_dim))]
@@ -232,7 +232,7 @@ def run(case):
             probes.append(C.all_indices(shp, 6, rng) if (i in exp_sel and len(shp) > 0) else ([[]] if i in exp_sel else []))
         res["model_req"] = {"op": "world_coords", "shape": list(shape), "corners": case["corners"], "mapping": mapping,
                             "wcs": {"pixDim": int(ll.pixel_n_dim), "worldDim": int(ll.world_n_dim), "corr": W.corr_matrix(ll), "shape": None},
-                            "probes": probes, "axes": list(args) if (isinstance(case["axes"], list)) else None}
+                            "probes": probes, "axes": [int(a) for a in args] if (isinstance(case["axes"], list)) else None}
         res["probes"] = probes
         res["exp_axes"] = {i: expected[i][0] for i in expected}
         res["exp_shapes"] = {i: list(expected[i][1].shape) for i in expected}
